@@ -43,6 +43,7 @@ pub fn generate(rng: &mut Rng, tier: Tier, stats: &mut GenStats) -> Scenario {
             layers: vec![],
             taps: g.rng.chance(1, 2),
             erased: false,
+            form: g.rng.below(8) as u8,
         });
     }
     // Walks must not share hidden state: the second walker often repeats the first one's glob from
